@@ -317,6 +317,10 @@ def c10_unit(task):
         psers = [distrun.serialize_partition(pr, r) for r in range(n)]
         tabs = distrun.name_tables(psers)
         out["P"] = distrun.lean_partition(psers, tabs)
+        ssp, rsp = G.comm_ops(spec)
+        out["comm_count"] = {"program_sends": len(ssp), "program_recvs": len(rsp),
+                             "partition_sends": sum(len(p["sends"]) for ps in psers for p in ps["parts"]),
+                             "partition_recvs": sum(len(p["recvs"]) for ps in psers for p in ps["parts"])}
         small = n <= 3 and out["stats"]["ncomm"] <= 4
         info = explore_program(spec, [r.npart for r in pr.ranks], ref, psers, tabs,
                                "exhaustive" if small else "random",
